@@ -237,7 +237,9 @@ def run_case(case):
                 else:
                     P = pick(sel, n)
                     y = x.partitions[P]
-                if sel in ("reordered", "repeated") and case["chain"] in ("cumsum",):
+                if (sel in ("reordered", "repeated") and case["chain"] in ("cumsum",)) or (sel == "repeated" and case["chain"] in ("set_index", "sort_values")):
+                    # outputs with sorted (monotone) divisions: a repeated selection cannot keep them monotone; the optimized plan
+                    # then keeps each selected partition once (observed, not judged)
                     return {"status": "undecided", "counters": {"skipped_monotone_required": 1}}
                 exp = [full[i] for i in P]
                 with M.Guard():
